@@ -24,6 +24,30 @@ def is_zero_init(st, var):
     return isinstance(st, CAssign) and unparse(st.target) == var
 
 
+def phi_reads(cf, D):
+    """lines at which the density is read in a kernel, apart from being handed to the solver as output: exactly one read (the
+    right-hand side r = phi/dt) means the coefficients do not depend on the density.  Independent of the template parse."""
+    solver = 'tridiag' if D == 1 else 'tridiag_premalloc'
+    reads, writes = [], []
+    for st in cf.walk():
+        if isinstance(st, CAssign):
+            for n in ast.walk(st.value):
+                if isinstance(n, ast.Name) and n.id == 'phi':
+                    reads.append(st.line)
+            if isinstance(st.target, ast.Subscript) and unparse(st.target.value) == 'phi':
+                writes.append(st.line)
+        elif isinstance(st, CExpr):
+            for n in ast.walk(st.expr):
+                if isinstance(n, ast.Name) and n.id == 'phi':
+                    if not (isinstance(st.expr, ast.Call) and unparse(st.expr.func) in (solver,)):
+                        reads.append(st.line)
+        elif isinstance(st, CIf):
+            for n in ast.walk(st.cond):
+                if isinstance(n, ast.Name) and n.id == 'phi':
+                    reads.append(st.line)
+    return reads
+
+
 class KernelFacts:
     def __init__(self, cf, D, k, report):
         self.cf, self.D, self.k = cf, D, k
@@ -361,24 +385,7 @@ class KernelFacts:
             tm, tf = find_call('tridiag_malloc'), find_call('tridiag_free')
             self.ob('memory.tridiag', len(tm) == 1 and len(tf) == 1 and unparse(tm[0][1].args[0]) == Ek and tm[0][0].line < sc[0][0].line < tf[0][0].line,
                     'tridiag_malloc(%s) ... tridiag_free()' % (unparse(tm[0][1].args[0]) if tm else '?'))
-        # phi is read only in the rhs and written only by the solver output
-        reads, writes = [], []
-        for st in cf.walk():
-            if isinstance(st, CAssign):
-                for n in ast.walk(st.value):
-                    if isinstance(n, ast.Name) and n.id == 'phi':
-                        reads.append(st.line)
-                if isinstance(st.target, ast.Subscript) and unparse(st.target.value) == 'phi':
-                    writes.append(st.line)
-            elif isinstance(st, CExpr):
-                for n in ast.walk(st.expr):
-                    if isinstance(n, ast.Name) and n.id == 'phi':
-                        if not (isinstance(st.expr, ast.Call) and unparse(st.expr.func) in (solver,)):
-                            reads.append(st.line)
-            elif isinstance(st, CIf):
-                for n in ast.walk(st.cond):
-                    if isinstance(n, ast.Name) and n.id == 'phi':
-                        reads.append(st.line)
+        reads = phi_reads(cf, D)
         self.ob('linearity', len(reads) == 1, 'phi is read at lines %s (only the right-hand side r = phi/dt may depend on it: coefficients are independent of the density)' % reads)
         return roles
 
